@@ -195,16 +195,39 @@ def run(chk, prog):
     # ---- R3 re-readability ------------------------------------------------------------------------
     pf = prog.fn("vfps::ProgramOptions::parse")
     chk.used(pf)
+    # options that stop parse() before anything is saved: decided on the CFG of parse() under the hypothesis "this option was given"
+    # (conditions are evaluated three-valued through `!`, `&&`, named bools and value lambdas; not read off the spelling of an if)
+    from .common import CondEval
+    ce = CondEval(pf)
+    gpf = Fl.CFG(pf)
     early = set()
+    counted = set()
     for x in A.walk(pf["body"]):
-        if x["k"] == "IfStmt":
-            cnt = [y for y in A.walk(x["cond"]) if (y.get("callee") or "").endswith("::count")]
-            rets = [y for y in A.walk(x["then"]) if y["k"] == "ReturnStmt"]
-            if cnt and rets and all(A.strip(r["c"][0]).get("value") is False for r in rets if r.get("c")):
-                for c_ in cnt:
-                    lit = [y for y in A.walk(c_) if y["k"] == "StringLiteral"]
-                    if lit:
-                        early.add(lit[0]["value"])
+        if x.get("k") == "CXXMemberCallExpr" and (x.get("callee") or "").endswith("::count"):
+            for y in A.walk(x):
+                if y.get("k") == "StringLiteral":
+                    counted.add(y["value"])
+    for lm in ce.lambdas.values():
+        pass
+    for x in A.walk(pf["body"]):
+        lam = ce.lambda_of(x)
+        if lam is not None:
+            for a_ in lam[1]:
+                sarg_ = ce.string_arg(a_, {})
+                if sarg_:
+                    counted.add(sarg_)
+    for name in sorted(counted):
+        def atom(c, env, name=name):
+            if c.get("k") == "CXXMemberCallExpr" and (c.get("callee") or "").endswith("::count") and c.get("args"):
+                sarg_ = ce.string_arg(c["args"][0], env)
+                if sarg_ == name:
+                    return True
+            return None
+        g_ = gpf.pruned(lambda c, at=atom: ce.tv(c, at))
+        rets = g_.events(lambda n: n.get("k") == "ReturnStmt")
+        vals = [ce.return_value(r[2]) for r in rets]
+        if rets and all(v is False for v in vals):
+            early.add(name)
     commented = set()
     for x in A.walk(loop["body"]):
         if x["k"] == "IfStmt":
